@@ -51,7 +51,7 @@ def schemas_for(t, work):
     res += sorted(glob.glob(os.path.join(common.REPO, "test/naming_test/*.xml")))
     try:
         from vlib import schemagen
-        n = 6 if t == "quick" else 40
+        n = 10 if t == "quick" else 40
         gd = os.path.join(work, "gen")
         os.makedirs(gd, exist_ok=True)
         for i, (xml, _model) in enumerate(schemagen.sample_schemas(n, common.seed() * 1000 + 20, allow_include=False)):
